@@ -80,6 +80,7 @@ class Builder(object):
         self.late = []          # dead-letter subscriptions to perform after the data stream is subscribed
         self.dead_subs = []     # every dead-letter subscription function (performed again before a re-subscription)
         self.dead_disp = []     # disposables of the dead-letter subscriptions made so far
+        self.shared = {'log': [], 'cur': None}      # what the effectful user functions of this pipeline share
 
     def pipe(self, term, path='', start=0):
         if path == '' and self.salt == 0:
@@ -106,6 +107,16 @@ class Builder(object):
 
     def stage_(self, st, here):
         n = st[0]
+        if n == 'map' and st[1] and st[1][0] in ('peek_log', 'reg_list'):
+            # user functions with an effect that another stage of the SAME pipeline object reads (one shared dict per Builder)
+            sh = self.shared
+            if st[1][0] == 'peek_log':
+                return [rs.ops.map(lambda x: (x, sh['log'][-1] if sh['log'] else None))]
+
+            def reg(l):
+                sh['cur'] = l
+                return l
+            return [rs.ops.map(reg)]
         if n == 'map':
             return [rs.ops.map(fn1(st[1]))]
         if n == 'starmap':
@@ -173,6 +184,15 @@ class Builder(object):
             return [rs.data.fill_none(dec(st[1]))]
         if n == 'identity':
             return [rs.ops.identity()]
+        if n == 'do_action' and len(st) > 1:
+            sh = self.shared
+            if st[1] == 'log':            # the action records the item
+                return [rs.ops.do_action(on_next=lambda i: sh['log'].append(i))]
+            if st[1] == 'grow':           # the action extends the list the item was taken from (a work list)
+                def grow(v):
+                    if sh.get('cur') is not None and v * 2 < st[2]:
+                        sh['cur'].append(v * 2)
+                return [rs.ops.do_action(on_next=grow)]
         if n == 'do_action':
             return [rs.ops.do_action(on_next=lambda i: None)]
         if n == 'assert':
